@@ -23,7 +23,7 @@ def gen_cases(tier, seed):
     for nums, tot, mult in corpus:
         for wt in ("int", "float"):
             cases.append({"kind": "mgs", "numbers": nums, "total": tot, "mult": mult, "wt": wt, "lb": 1, "parts": None, "rcv": True})
-    n = 220 if tier == "quick" else 3000
+    n = 220 if tier == "quick" else 20000
     for i in range(n):
         rng = gen.rng_for("C15g", seed, i)
         k = rng.randint(1, 4)
